@@ -61,10 +61,14 @@ class Ctx:
         for v in self.violations:
             if v[0] == signature:
                 return v[2]        # one replay per signature is enough
-        os.makedirs(REPLAYS, exist_ok=True)
+        rdir = REPLAYS
+        scratch = os.environ.get("VERIF_REPO")
+        if scratch and os.path.realpath(scratch) != "/repo":
+            rdir = os.path.join(VERIF, ".build", "replays-scratch")     # mutant / candidate-fix runs keep their replays apart
+        os.makedirs(rdir, exist_ok=True)
         body = dict(property=self.pid, signature=signature, what=what, seed=self.seed, tier=self.tier, case=replay)
         sha = hashlib.sha1(json.dumps(body, sort_keys=True, default=str).encode()).hexdigest()[:10]
-        path = os.path.join(REPLAYS, "%s-%s.json" % (self.pid, sha))
+        path = os.path.join(rdir, "%s-%s.json" % (self.pid, sha))
         with open(path, "w") as fh:
             json.dump(body, fh, indent=1, default=str)
         self.violations.append((signature, what, path))
